@@ -51,7 +51,13 @@ Adf15Docs == {d \in Adf15DocsAll : d.nb = 11 => d.header # "full"}
 \* although the index lists it (with eleven blocks the file then still holds blocks 10 and 11, whose numbers begin with a 1)
 BlockType(k) == CASE k % 3 = 1 -> "excitation" [] k % 3 = 2 -> "recombination" [] k % 3 = 0 -> "thermalcx"
 \* with perm the index table lists the blocks in reverse order: the assignment must follow ISEL, not position
+\* full-configuration headers name a level by its configuration and term: the total orbital quantum number L is written as its
+\* spectroscopic letter, S P D F G H I K L M N O Q R for L = 0..13 (no J); the levels of the synthetic table cycle through L
+TermLetters == <<"S", "P", "D", "F", "G", "H", "I", "K", "L", "M", "N", "O", "Q", "R">>
+LevelL(lev) == (5 * lev) % 14
+ASSUME "J" \notin {TermLetters[i] : i \in 1..14} /\ \A i, j \in 1..14 : TermLetters[i] = TermLetters[j] => i = j
 Expected15(d) == [blocks |-> [k \in 1..d.nb |-> [isel |-> k, cls |-> BlockType(k), upper |-> k + 2, lower |-> k + 1, wavelength_A |-> 1000 * k + 5]],
+                  levels |-> [lev \in 1..(d.nb + 4) |-> [L |-> LevelL(lev), letter |-> TermLetters[LevelL(lev) + 1]]],
                   outcome |-> IF d.missing # "none" THEN "RuntimeError" ELSE "ok"]
 
 \* ADF12: nblk blocks of five 1-D tables with fixed capacities 24 / 12 and the counts actually used
